@@ -140,6 +140,11 @@ class KaniCrate:
         return self.built
 
     def run_one(self, h, timeout, mem_gb):
+        if getattr(self, "deadline", None) and time.time() > self.deadline:
+            r = Result()
+            r.status = "SKIPPED"
+            r.wall = 0
+            return r
         cmd = ["cargo", "kani", "--target-dir", self.target, "--exact", "--harness", "h::" + h.name] + KANI_FLAGS
         rc, out, dt = common.run(cmd, cwd=self.dir, env=common.base_env(), timeout=h.timeout or timeout, mem_gb=mem_gb,
                                  log=os.path.join(self.dir, h.name + ".log"))
@@ -163,8 +168,17 @@ class KaniCrate:
             return {}
         report.time_engine("kani_build", self.build_s)
         jobs = jobs or max(1, min(8, common.ncpu() // 2))
+        if os.environ.get("VERIF_KANI_TIMEOUT"):
+            timeout = min(timeout, int(os.environ["VERIF_KANI_TIMEOUT"]))
+            for h in self.harnesses:
+                if h.timeout:
+                    h.timeout = min(h.timeout, timeout)
         results = {}
         t1 = time.time()
+        # wall budget of the CBMC phase: harnesses not started by then are skipped (inconclusive), so that a change which
+        # slows the solver down cannot stretch a quick run to hours
+        budget = int(os.environ.get("VERIF_KANI_BUDGET", "2400" if os.environ.get("VERIF_TIER") != "thorough" else "14400"))
+        self.deadline = t1 + budget
         with cf.ThreadPoolExecutor(max_workers=jobs) as ex:
             futs = {ex.submit(self.run_one, h, timeout, mem_gb): h for h in self.harnesses}
             for fu in cf.as_completed(futs):
@@ -182,6 +196,10 @@ class KaniCrate:
         report.functions.add("kani:%s::%s" % (self.name, h.name))
         sample = h.sample or {"harness": h.name, "expect": h.expect, "verdict": r.status, "checks": r.checks,
                               "covers": r.covers[:4], "cbmc_s": round(r.time, 2)}
+        if r.status == "SKIPPED":
+            report.oblig(h.key, False, h.symbolic, None)
+            report.inconcl("harness %s::%s not run: the time budget of the solver phase was used up" % (self.name, h.name))
+            return
         if r.status in ("TIMEOUT", "ERROR") or r.status is None:
             report.oblig(h.key, False, h.symbolic, sample)
             report.inconcl("harness %s::%s: %s after %.0fs (no verdict)" % (self.name, h.name, r.status, getattr(r, "wall", 0)))
